@@ -232,3 +232,51 @@ def unit_xexchange_save(twin=False):
     r.add("site.workspace_cleared_per_site", DISCHARGED if "count_elts=0;paren_count=0;charge=0.0;" in t else FAILED, "syntactic", 0, "", kind="structural")
     r.assumptions += ["add_elt_list / elt_list_NameDouble are under C02.*.formula_workspace units", "text anchors for the site-level obligations"]
     return r
+
+
+def unit_add_surface_dl(twin=False):
+    """add_surface: the diffuse-layer totals that xsurface_save stores for an explicit diffuse layer (dl_type != NO_DL) are added
+    back to the reacting system for every such layer type when the surface is re-used (not a new definition)."""
+    q = "Phreeqc::add_surface"
+    fn = A.find_function(STEP, q)
+    r = U.new_unit("C02.add_surface.saved_diffuse_layer_totals_are_added_back", STEP, q, fn)
+    # the saver's condition
+    fs = A.find_function(MS, "Phreeqc::xsurface_save")
+    ts = text_of(MS, fs)
+    r.add("xsurface_save.stores_diffuse_layer_totals_iff_dl_type_x!=NO_DL", DISCHARGED if ts.count("if(dl_type_x!=cxxSurface::NO_DL){sum_diffuse_layer(charge_ptr);cxxNameDoublend=elt_list_NameDouble();charge_ptr->Set_diffuse_layer_totals(nd);}") == 2 else FAILED, "syntactic", 0, "", kind="structural")
+    k = loop_ordinal(fn, STEP, init_text="size_ti=0", cond_text="i<surface_ptr->Get_surface_charges().size()")
+    ev = A.enum_values_compiled("Phreeqc.h", ["cxxSurface::NO_DL", "cxxSurface::BORKOVEK_DL", "cxxSurface::DONNAN_DL"])
+    c = ctx(functional=("Get_dl_type", "Get_new_def", "Get_type", "Get_surface_charges", "Get_diffuse_layer_totals", "begin", "end"))
+    c.enum_values.update({k_.split("::")[-1]: v for k_, v in ev.items()})
+    f, ex, its, info = U.run_loop_isolated(STEP, q, k, ctx=c)
+    loops = [x for x in A.walk(fn) if x.get("kind") in ("ForStmt", "WhileStmt", "DoStmt")]
+    inner = [j for j, lp in enumerate(loops) if lp.get("kind") == "ForStmt" and "Get_diffuse_layer_totals().begin()" in text_of(STEP, lp["inner"][0] or {})]
+    if len(inner) != 1:
+        raise Undecided("diffuse-layer totals loop of add_surface not found")
+    entries = info["inner_entries"].get(inner[0], [])
+    if not entries:
+        r.add("diffuse_layer_loop_reachable", FAILED, "symex", 0, ""); return r
+    s0 = entries[0]
+    dl = [e.result for e in s0.events if e.name.endswith("Get_dl_type")]
+    nd = [e.result for e in s0.events if e.name.endswith("Get_new_def")]
+    if not dl or not nd:
+        r.add("guard_reads_dl_type_and_new_def", FAILED, "symex", 0, ""); return r
+    ends = live(its, ("run", "cont"))
+    def passed(st):
+        return any(all(p in st.pc for p in e.pc) for e in entries)
+    for name in ("BORKOVEK_DL", "DONNAN_DL") + (("NO_DL",) if twin else ()):
+        n_ok = n_bad = 0
+        for st in ends:
+            dl_s = [e.result for e in st.events if e.name.endswith("Get_dl_type")]
+            nd_s = [e.result for e in st.events if e.name.endswith("Get_new_def")]
+            if not dl_s or not nd_s:
+                continue
+            hyp = [tm.eq(dl_s[0], tm.num(ev["cxxSurface::" + name], "I")), tm.eq(ex.coerce(nd_s[0], "I"), tm.num(0, "I"))]
+            if B.z3_sat(list(st.pc) + hyp) == "unsat":
+                continue
+            if passed(st): n_ok += 1
+            else: n_bad += 1
+        r.add("%s.re-used_surface.totals_added_back" % name, DISCHARGED if n_ok and not n_bad else FAILED, "symex+z3", 0, "%d paths add the totals, %d paths with such a layer skip them" % (n_ok, n_bad))
+    r.add("reach.entries", DISCHARGED, "symex", 0, "%d entry states" % len(entries), kind="vacuity")
+    r.assumptions += ["Borkovec-Westall and Donnan are the two explicit layer kinds (enum cxxSurface::DIFFUSE_LAYER_TYPE)", "what the inner loop adds is under C02.step.element_dispatch"]
+    return r
